@@ -29,6 +29,24 @@ def circuit_configs(ctx: Ctx) -> list[tuple[str, Any, list[str]]]:
             for i, (tree, dec) in enumerate(rs):
                 out.append((f'level{lvl}/{tag}' + (f'/{i}' if i else ''),
                             tree, dec))
+    if ctx.thorough:
+        # other synthesis sizes, error-simulation sizes (equal to the block
+        # size selects another branch of build_partitioning_workflow) and
+        # a fixed seed (adds SetRandomSeedPass)
+        for lvl in (1, 2, 3, 4):
+            for mss in (2, 3, 4):
+                for ess in (mss, 8):
+                    for seed in (None, 7):
+                        if (mss, ess, seed) == (3, 8, None):
+                            continue
+                        rs = W.evaluate_all(
+                            ctx, '_circuit_workflow',
+                            [W.Unknown('model'), lvl, 1e-8, mss, 0.01, ess,
+                             seed], {})
+                        for tree, dec in rs:
+                            out.append((
+                                f'level{lvl}/error-bound/mss{mss}/ess{ess}/'
+                                f'seed{seed}', tree, dec))
     return out
 
 
